@@ -16,7 +16,12 @@ for sd in seeds:
     assert subprocess.run(["git", "-C", "/repo", "status", "--porcelain", "--untracked-files=no"], capture_output=True, text=True).stdout.strip() == "", "/repo not clean"
     t0 = time.time()
     try:
-        subprocess.run(["git", "-C", "/repo", "apply", patch], check=True)
+        ap = subprocess.run(["git", "-C", "/repo", "apply", patch])
+        if ap.returncode != 0:
+            res[sd] = {"property": prop, "tier": tier, "exit": None, "caught": False, "violations": [], "harness_errors": ["patch does not apply to the current /repo HEAD"], "wall_s": 0, "summary": "patch does not apply"}
+            print(sd, "PATCH-DOES-NOT-APPLY", flush=True)
+            json.dump(res, open(resf, "w"), indent=1, sort_keys=True)
+            continue
         p = subprocess.run([os.path.join(ROOT, "check"), prop, "--tier", tier, "--no-evidence", "--fail-fast"], cwd=ROOT, capture_output=True, text=True)
     finally:
         subprocess.run(["git", "-C", "/repo", "checkout", "--", "."], check=True)
